@@ -56,7 +56,7 @@ def _zone(args):
             st = pipeline.specifier_table(zi, y0, y1, **opt)
         except BaseException as e:
             viol.append(('python-raised', {'zone': name, 'options': opt, 'error': '%s %s' % (type(e).__name__, str(e)[:100])})); continue
-        rows = [(s, o, d, a) for (s, o, d, a) in st]
+        rows = [(s, o, d, a) for (s, o, d, a) in st if s < hi]   # a 13-month table of the last year reaches one day past the range: not compared
         # merge rows equal in (offset, dst offset, abbrev)
         m = []
         for r in rows:
